@@ -18,26 +18,46 @@ pub struct Spaces {
     pub t1: Corpus,
     pub t2: Corpus,
     pub t3: Corpus,
+    pub t4: Corpus,
+    pub t5: Corpus,
+}
+
+impl Spaces {
+    pub fn all(&self) -> [&Corpus; 5] {
+        [&self.t1, &self.t2, &self.t3, &self.t4, &self.t5]
+    }
+    pub fn total(&self) -> u64 {
+        self.all().iter().map(|c| c.len()).sum()
+    }
 }
 
 pub fn spaces(tier: Tier) -> &'static Spaces {
     static Q: OnceLock<Spaces> = OnceLock::new();
     static T: OnceLock<Spaces> = OnceLock::new();
     match tier {
-        Tier::Quick => Q.get_or_init(|| Spaces { t1: corpus::t1(), t2: corpus::t2(corpus::small_atoms()), t3: corpus::t3(corpus::t3_default(6)) }),
-        Tier::Thorough => T.get_or_init(|| Spaces { t1: corpus::t1(), t2: corpus::t2(corpus::typed_atoms()), t3: corpus::t3(corpus::t3_default(7)) }),
+        Tier::Quick => Q.get_or_init(|| Spaces { t1: corpus::t1(), t2: corpus::t2(corpus::small_atoms()), t3: corpus::t3(corpus::t3_default(6)), t4: corpus::t4(8), t5: corpus::t5(7) }),
+        Tier::Thorough => T.get_or_init(|| Spaces { t1: corpus::t1(), t2: corpus::t2(corpus::typed_atoms()), t3: corpus::t3(corpus::t3_default(7)), t4: corpus::t4(10), t5: corpus::t5(9) }),
     }
 }
 
 pub fn locate(tier: Tier, idx: u64) -> (&'static Corpus, u64) {
     let s = spaces(tier);
-    if idx < s.t1.len() {
-        (&s.t1, idx)
-    } else if idx < s.t1.len() + s.t2.len() {
-        (&s.t2, idx - s.t1.len())
-    } else {
-        (&s.t3, idx - s.t1.len() - s.t2.len())
+    let mut i = idx;
+    for c in s.all() {
+        if i < c.len() {
+            return (c, i);
+        }
+        i -= c.len();
     }
+    panic!("program index out of range")
+}
+
+/// does the reference evaluator finish this program (input 0) within its fuel? Used to drop the never-ending
+/// bodies of the reapply-loop corpus T4 where running them to a step cap would only cost time.
+pub fn ref_terminates(e: &E) -> bool {
+    let host = Host::none();
+    let mut r = Ref::new(&host, 64);
+    !matches!(r.run(e, &V::Int(0)), Err(Stop::Fuel))
 }
 
 #[derive(Clone, Debug, PartialEq)]
@@ -222,8 +242,7 @@ impl Property for C01 {
         "exploration"
     }
     fn size(&self, tier: Tier) -> u64 {
-        let s = spaces(tier);
-        s.t1.len() + s.t2.len() + s.t3.len()
+        spaces(tier).total()
     }
     fn describe(&self, tier: Tier, idx: u64) -> String {
         let (c, i) = locate(tier, idx);
@@ -243,7 +262,7 @@ impl Property for C01 {
             _ => 5,
         };
         // quick tiers use the inputs "5" and "(:a = 1, :b = 2)"; thorough all five
-        let sel: Vec<usize> = if n_inputs == 2 { vec![1, 3] } else { (0..5).collect() };
+        let sel: Vec<usize> = if c.name == "T4" { vec![1] } else if n_inputs == 2 { vec![1, 3] } else { (0..5).collect() };
         for ii in sel {
             check_one::<SData>(cx, &e, ii, true);
             check_one::<BData>(cx, &e, ii, true);
@@ -286,8 +305,8 @@ impl Property for C01 {
         let s = spaces(tier);
         Meta {
             rule: format!(
-                "all ASTs of three grammars by size (unranked index -> AST): T1 every core operator with <=1 operator over 12 typed atoms ({} programs, 5 inputs); T2 every ordered pair of operators in both nestings ({} programs); T3 structural grammar (groups, space/comma lists, conditionals with else-chains, && ||, `;` and blank-line sequencing, side-effect blocks, nested expressions with <~ ~> ~~, identifiers, property access, bounded reapply loops) up to {} AST nodes ({} programs); each printed with minimal parentheses, run on SimpleGarnishData and BasicGarnishData and compared with the reference evaluator. Non-trivial = program with at least one operator; distinct by enumeration index (the unranking is injective).",
-                s.t1.len(), s.t2.len(), s.t3.max, s.t3.len()
+                "all ASTs of five grammars by size (unranked index -> AST): T1 every core operator with <=1 operator over 12 typed atoms ({} programs, 5 inputs); T2 every ordered pair of operators in both nestings ({} programs); T3 structural grammar (groups, space/comma lists, conditionals with else-chains, && ||, `;` and blank-line sequencing, side-effect blocks, nested expressions with <~ ~> ~~, identifiers, property access, bounded reapply loops) up to {} AST nodes ({} programs); T4 reapply loops `{{ T }} <~ 0` whose body places `^~ $ + 1` / `^~ $ + 2` in every guarded position - conditional arms, else arms, chained arms, right operand of && / ||, groups, after `;` and blank-line sequencing - up to {} nodes ({} programs); T5 calls: nested expressions applied inside nested expressions by <~ ~> ~~ with additions, lists, conditionals and `;` around them, up to {} nodes ({} programs); each printed with minimal parentheses, run on SimpleGarnishData and BasicGarnishData and compared with the reference evaluator. Non-trivial = program with at least one operator; distinct by enumeration index (the unranking is injective).",
+                s.t1.len(), s.t2.len(), s.t3.max, s.t3.len(), s.t4.max, s.t4.len(), s.t5.max, s.t5.len()
             ),
             assumptions: vec![
                 "reference evaluator engine/src/refeval.rs is the statement of the core-language semantics (DESIGN.md appendix A); constructs it declines (ranges, slices, casts, float indexes, duplicate keys, shifts with unrepresentable product) are counted, not judged".into(),
